@@ -560,7 +560,7 @@ func factsC09() {
 	code("dcSessErrAction", kSeshErr, "GetSession error")
 	// order of the branches; nothing is written to the peer (conn.Write / finishHandshake) at top level before the last rejection
 	ordered := kRead >= 0 && kGoWeb > kRead && kReadErr > kGoWeb && kAuth > kReadErr && kAuthErr == kAuth+1 && kObfs > kAuthErr && kObfsErr == kObfs+1 &&
-		kAdmin > kObfsErr && kMethod > kAdmin && kUser > kMethod && kUserErr == kUser+1 && kSesh > kUserErr && kSeshErr == kSesh+1
+		kAdmin > kObfsErr && kMethod > kAdmin && kUser > kMethod && kUserErr == kUser+1 && kSesh > kUserErr && kSeshErr > kSesh
 	boolFact(g, "dcBranchOrder", ordered, "readFirstPacket; goWeb :=; read-error; Auth; obfuscator; admin; proxy method; user; GetSession")
 	quiet := kUserErr >= 0
 	for k := 0; k <= kUserErr && k < len(top); k++ {
